@@ -506,3 +506,25 @@ def rejected_then_cancel_family(thin: int = 1) -> List[dict]:
                             steps.extend(copy.deepcopy(DRAIN))
                             cases.append({"pools": [{"cls": "TaskPool", "size": size}], "steps": steps})
     return cases[::thin] if thin > 1 else cases
+
+
+def thousand_tasks_family() -> List[dict]:
+    """More than a thousand (quick) / ten thousand tasks in one pool: ids with four and five digits in names, groups and callbacks."""
+    cases: List[dict] = []
+    for cls in ("TaskPool", "SimpleTaskPool"):
+        for size, big in ((None, 1100), (400, 1030)):
+            for kind, extra in (("apply", {}), ("map", {"nc": 300})):
+                if cls == "SimpleTaskPool" and kind == "map":
+                    continue
+                first = {"op": "spawn", "pool": 0, "kind": kind, "num": big, "n": big, "place": "inline", "worker": {"script": [], "fname": "w"},
+                         "ecb": {"async": False}, **extra}
+                second = {"op": "spawn", "pool": 0, "kind": "apply", "num": 3, "place": "inline", "worker": {"script": [["wait"]], "fname": "w"},
+                          "ecb": {"async": False}, "ccb": {"async": False}}
+                steps = [first, {"op": "settle"}, second, {"op": "tick", "k": 3}, {"op": "cancel", "pool": 0, "refs": [["live", 1]], "place": "inline"},
+                         {"op": "settle"}] + copy.deepcopy(DRAIN)
+                pool: Dict[str, Any] = {"cls": cls, "size": size}
+                if cls == "SimpleTaskPool":
+                    pool["worker"] = {"script": [], "fname": "w"}
+                    pool["ecb"] = {"async": False}
+                cases.append({"pools": [pool], "steps": steps})
+    return cases
